@@ -11,7 +11,7 @@ PROPS = {
     "C16": ("atom+atomimp", ["le", "be", "beport"], 100000, 3000000),
     "C17": ("atom", ["le", "be"], 80000, 2500000),
     "C05": ("mem+atom+memnomax", ["le", "gnuld", "gccO2", "clangO3"], 18000, 420000),
-    "C19": ("atom+mem", ["be", "beport"], 24000, 700000),
+    "C19": ("atom+mem+memls", ["be", "beport", "benothr"], 24000, 700000),
 }
 
 
@@ -32,7 +32,10 @@ def build(module, variant):
     gen = gen_module(module)
     rt_files = [os.path.join(REPO, "w2c2", "w2c2_base.h")] + [os.path.join(REPO, "futex", f) for f in ("futex.c", "futex.h", "list.c", "list.h", "map.c", "map.h")]
     vfiles = glob_files(ENG, (".c", ".cpp", ".h")) + glob_files(SIMCORE, (".cpp", ".h"))
-    extra = ["-DWASM_ENDIAN=WASM_BIG_ENDIAN"] if variant in ("be", "beport") else []
+    extra = ["-DWASM_ENDIAN=WASM_BIG_ENDIAN"] if variant in ("be", "beport", "benothr") else []
+    # variant 'benothr': a big-endian embedding without a threads implementation (no WASM_THREADS_*): the header then has its own
+    # variants of the atomic accessors (no mutex to build them from); only for the module with a non-shared memory
+    thr = [] if variant == "benothr" else ["-DWASM_THREADS_PTHREADS"]
     key = sha(xlkey, hash_files(rt_files), hash_files(vfiles), gen, module, variant, " ".join(extra), "v5")
     d, ok = cached_dir("e1", key)
     exe = os.path.join(d, "simrt")
@@ -50,8 +53,7 @@ def build(module, variant):
         run_cmd(["ld", "-r", "-b", "binary", "datasegments", "-o", "ds.o", "-z", "noexecstack"], cwd=d)
         extra_objs = [os.path.join(d, "ds.o")]
     cov = ["-fsanitize-coverage=trace-pc-guard,trace-loads,trace-stores"]
-    sut = ["clang", "-O1", "-g", "-w"] + SAN + cov + ["-include", os.path.join(ENG, "sim_atomics.h"), "-DWASM_THREADS_PTHREADS",
-                                                        "-I" + os.path.join(REPO, "w2c2")] + extra
+    sut = ["clang", "-O1", "-g", "-w"] + SAN + cov + ["-include", os.path.join(ENG, "sim_atomics.h")] + thr + ["-I" + os.path.join(REPO, "w2c2")] + extra
     cmds = [sut + ["-c", os.path.join(d, module + ".c"), "-o", os.path.join(d, "mod.o")]]
     if variant == "beport":
         # big-endian build with the header's portable mask-and-shift byte-swap macros (what a compiler without bswap builtins gets):
@@ -68,9 +70,9 @@ def build(module, variant):
         cc = ["gcc", "-O2"] if variant == "gccO2" else ["clang", "-O3"]
         cmds[0] = cc + ["-w", "-DWASM_THREADS_PTHREADS", "-I" + os.path.join(REPO, "w2c2"), "-c", os.path.join(d, module + ".c"), "-o", os.path.join(d, "mod.o")]
     for f in ("futex", "list", "map"):
-        cmds.append(sut + ["-c", os.path.join(REPO, "futex", f + ".c"), "-o", os.path.join(d, f + ".o")])
+        cmds.append(sut + (["-DWASM_THREADS_PTHREADS"] if not thr else []) + ["-c", os.path.join(REPO, "futex", f + ".c"), "-o", os.path.join(d, f + ".o")])
     cmds.append(["clang", "-O1", "-g", "-Wno-everything", "-Werror=implicit-function-declaration"] + SAN +
-                ["-DWASM_THREADS_PTHREADS", "-I" + os.path.join(REPO, "w2c2"), "-I" + d, "-I" + ENG] + extra +
+                thr + ["-I" + os.path.join(REPO, "w2c2"), "-I" + d, "-I" + ENG] + extra +
                 ["-DMOD=" + module, '-DMOD_HEADER="%s.h"' % module, '-DMOD_EXPORTS="%s_exports.inc"' % module,
                  "-c", os.path.join(ENG, "glue.c"), "-o", os.path.join(d, "glue.o")])
     cxx = ["clang++", "-std=c++17", "-O1", "-g"] + SAN + ["-I" + SIMCORE, "-I" + ENG]
@@ -185,6 +187,8 @@ def check(prop, tier, seed, replay=None):
                 continue        # the shared-memory module has no data segments; one optimising build of it is enough
             if prop == "C05" and m == "memnomax" and v != "le":
                 continue        # same code paths as 'mem', only the declared limits differ
+            if (v == "benothr") != (m == "memls"):
+                continue        # without a threads implementation the header offers atomic loads and stores only (module 'memls', non-shared memory)
             if m == "atomimp" and v != "le":
                 continue        # the module that imports its shared memory differs from 'atom' in what the translator emits, not in the header paths
             exes[(m, v)] = build(m, v)
@@ -207,7 +211,7 @@ def check(prop, tier, seed, replay=None):
             sys.stdout.write(r.stdout.decode(errors="replace")); sys.stderr.write(r.stderr.decode(errors="replace")[-8000:])
             return 1 if r.returncode != 0 else 0
         be = " be=1" in txt
-        mod = "memnomax" if "# module memnomax" in txt else ("mem" if "# module mem" in txt else ("atomimp" if "# module atomimp" in txt else "atom"))
+        mod = "memnomax" if "# module memnomax" in txt else "memls" if "# module memls" in txt else ("mem" if "# module mem" in txt else ("atomimp" if "# module atomimp" in txt else "atom"))
         mv = re.search(r"^# variant (\S+)", txt, re.M)
         var = mv.group(1) if mv and mv.group(1) in variants else ("be" if be else "le")
         exe = exes.get((mod, var)) or build(mod, var)
@@ -288,7 +292,7 @@ def check(prop, tier, seed, replay=None):
         with open(path, errors="replace") as f:
             txt = f.read()
         be = " be=1" in txt
-        mod = "memnomax" if "# module memnomax" in txt else ("mem" if "# module mem" in txt else ("atomimp" if "# module atomimp" in txt else "atom"))
+        mod = "memnomax" if "# module memnomax" in txt else "memls" if "# module memls" in txt else ("mem" if "# module mem" in txt else ("atomimp" if "# module atomimp" in txt else "atom"))
         mv = re.search(r"^# variant (\S+)", txt, re.M)
         var = mv.group(1) if mv and mv.group(1) in variants else ("be" if be else "le")
         return [exes.get((mod, var), list(exes.values())[0]), "--replay", path]
